@@ -208,13 +208,15 @@ CLAIMED = {
         category="other",
         design_ref="DESIGN.md section 3 / C14",
         technique="static analysis: abstract interpretation over the clang CFG with linear guard facts and a small "
-                  "inequality prover (E-BOUNDS) on every matches_response override",
-        text="Decides clause 3 only - 'for every layer class and every buffer of any length, including zero, response "
+                  "inequality prover (E-BOUNDS) on every matches_response override; Boolean truth table of the IPv4 address condition",
+        text="Decides clause 3 - 'for every layer class and every buffer of any length, including zero, response "
              "matching reads only inside the buffer': every dereference, struct overlay, memcmp/memcpy and the "
              "(ptr + X, total_sz - X) hand-over to the inner layer in all matches_response overrides (incl. PDUCacher "
              "instantiations) is proved in bounds from the guards that dominate it. One genuine defect found this way "
-             "(RadioTap::matches_response) was repaired with a fix: commit.",
-        note="Clauses 1-2 (mirrored replies are recognised, strangers are not) are value-level and NOT decided. Assumes "
+             "(RadioTap::matches_response) was repaired with a fix: commit. Of clauses 1-2 only the IPv4 address predicate is "
+             "decided (R2): its truth table over the four address comparisons accepts mirrored addresses and never accepts a "
+             "packet not addressed to us or, for unicast requests, not sent by the requested host.",
+        note="The rest of clauses 1-2 (identifiers, ports, sequence numbers, other layers' predicates) is value-level and NOT decided. Assumes "
              "no overflow in additions of 32-bit lengths; little-endian arm only.",
     ),
     "C17": dict(
